@@ -74,7 +74,7 @@ func runC17(c *Ctx) {
 	}
 	toks := []string{"x", ":a b", ":", ":  lead", "123456789", ":é ü", "a b c", ":" + strings.Repeat("t", 300), "srv.example.org", "::x"}
 	for i := 0; i < 120*c.Scale; i++ {
-		in := map[string]string{"nick": c.Rng.Pick([]string{"me", "Nick[1]", "a"}), "check": "c17"}
+		in := map[string]string{"nick": c.Rng.Pick([]string{"me", "Nick[1]", "a", "a_nick_of_twenty_nine_chars_xy", "exactly_thirty_characters_long"}), "check": "c17"}
 		in["collide"] = c.Rng.Pick([]string{"", "", "", "suffix:-x", "fixed:other", "fixed:other", "empty", "fixed:", "suffix:"})
 		if c.Rng.Chance(15) {
 			in["notrack"] = "1"
